@@ -334,6 +334,7 @@ def check_prop(ctx, prop, modules, theorems, facets, trusted, rule, explanation,
     for g in gens:
         k = g[1] if not (len(g) > 3 and g[3]) else "broken"
         gout[k] = gout.get(k, 0) + 1
+    core.flag_broken_packages(ctx, gens, "it cannot serve any request")
     unmod = sum(1 for v in plans.values() if not v.startswith("plan-ok"))
     if unmod:
         ctx.broken.append({"kind": "model-reader", "detail": "Lean reader/plan rejected %d generated specs: %s" % (unmod, [v for v in plans.values() if not v.startswith("plan-ok")][:3])})
